@@ -70,6 +70,13 @@ pub fn main(args: &[String]) -> i32 {
             let _ = p.run_index(args[4].parse().unwrap(), args[3].parse().unwrap(), tier, &mut rt);
             0
         }
+        "histprobe" => {
+            // run the indices a worker w of nw meets, in its order, up to idx, in THIS process, and say
+            // whether idx violates (state that only the process's earlier history explains: heap layout,
+            // address reuse, anything outside the seam)
+            let tier = if args[2] == "thorough" { Tier::Thorough } else { Tier::Quick };
+            hist_run(&args[1], tier, args[3].parse().unwrap(), args[4].parse().unwrap(), args[5].parse().unwrap(), args[6].parse().unwrap())
+        }
         "fidelity" => fidelity(&args[1..]),
         "show" => show(&args[1], args[2].parse().unwrap()),
         "parse-report" => {
@@ -146,6 +153,8 @@ fn worker(args: &[String]) -> i32 {
     let mut listing = vec![];
     let known = known_findings();
     let isolated = std::env::var("VERIF_ISOLATED").map(|v| v == "1").unwrap_or(false);
+    // history probes re-run a worker up to (and including) one index
+    let upto: Option<u64> = std::env::var("VERIF_UPTO").ok().and_then(|s| s.parse().ok());
     let stdout = std::io::stdout();
     let mut idx = w;
     while idx < n {
@@ -190,6 +199,9 @@ fn worker(args: &[String]) -> i32 {
             })
             .count();
         if fresh >= 3 {
+            break;
+        }
+        if upto == Some(idx) {
             break;
         }
         idx += nw;
@@ -614,6 +626,59 @@ fn crash_probe(id: &str, tier: Tier, seed: u64, idx: u64) -> Option<i32> {
     }
 }
 
+/// see "histprobe"
+fn hist_run(id: &str, tier: Tier, seed: u64, w: u64, nw: u64, upto: u64) -> i32 {
+    let p = match props::get(id) {
+        Some(p) => p,
+        None => return 2,
+    };
+    let mut rt = Rt::new();
+    let mut idx = w;
+    while idx <= upto {
+        let vs = p.run_index(idx, seed, tier, &mut rt);
+        if idx == upto {
+            return match vs.first() {
+                Some(v) => {
+                    println!("REPRODUCED class={} property={}", v.class, id);
+                    println!("detail: {}", v.detail);
+                    1
+                }
+                None => {
+                    println!("NOT-REPRODUCED property={} (the property held at index {} after this process history)", id, upto);
+                    0
+                }
+            };
+        }
+        idx += nw;
+    }
+    0
+}
+
+/// the class reported for `idx` by a FRESH worker process that first runs what worker w of nw ran before it
+/// (the very same code path as the worker that found it)
+fn history_probe(id: &str, tier: Tier, seed: u64, w: u64, nw: u64, idx: u64) -> Option<String> {
+    let exe = std::env::current_exe().unwrap();
+    let scratch = out_root().join(format!("histprobe-{}", std::process::id()));
+    let _ = std::fs::create_dir_all(&scratch);
+    let out = Command::new(exe)
+        .args(["worker", id, tier.name(), &seed.to_string(), &w.to_string(), &nw.to_string(), &scratch.to_string_lossy()])
+        .env("VERIF_UPTO", idx.to_string())
+        .stderr(Stdio::null())
+        .output()
+        .ok();
+    let _ = std::fs::remove_dir_all(&scratch);
+    let out = out?;
+    let text = String::from_utf8_lossy(&out.stdout).to_string();
+    for line in text.lines() {
+        if let Some(rest) = line.strip_prefix("R ") {
+            if let Ok(rep) = from_json::<WorkerReport>(rest) {
+                return rep.violations.iter().find(|v| v.idx == idx).map(|v| v.class.clone());
+            }
+        }
+    }
+    None
+}
+
 fn write_replay(v: &Violation, minimised: bool, original_ops: usize) -> PathBuf {
     let dir = out_root().join("replays");
     let _ = std::fs::create_dir_all(&dir);
@@ -674,6 +739,22 @@ pub fn replay(file: &str) -> i32 {
             }
             None => {
                 println!("NOT-REPRODUCED property={} (the process survived this case index)", prop);
+                0
+            }
+        };
+    }
+    if doc["kind"].as_str() == Some("process_history") {
+        let tier = if doc["tier"].as_str() == Some("thorough") { Tier::Thorough } else { Tier::Quick };
+        let got = history_probe(prop, tier, doc["seed"].as_u64().unwrap_or(0), doc["worker"].as_u64().unwrap_or(0), doc["workers"].as_u64().unwrap_or(1), doc["index"].as_u64().unwrap_or(0));
+        return match got {
+            Some(class) => {
+                println!("REPRODUCED class={} property={}", class, prop);
+                println!("detail: {}", doc["detail"].as_str().unwrap_or(""));
+                println!("VIOLATION property={} replay={}", prop, file);
+                1
+            }
+            None => {
+                println!("NOT-REPRODUCED property={} (the property held at this index after the recorded process history)", prop);
                 0
             }
         };
@@ -744,6 +825,8 @@ pub fn check(p: &dyn Prop, tier: Tier, seed: u64) -> i32 {
     let mut reported = 0usize;
     let mut known_hits: BTreeMap<String, usize> = BTreeMap::new();
     let mut classes_seen: BTreeSet<String> = BTreeSet::new();
+    let mut attempts: BTreeMap<String, usize> = BTreeMap::new();
+    let mut unreproduced: Vec<(String, String)> = vec![];
     let mut violation_lines = vec![];
     for v in &merged.violations {
         if v.class == "harness_crash" {
@@ -758,7 +841,12 @@ pub fn check(p: &dyn Prop, tier: Tier, seed: u64) -> i32 {
         if classes_seen.contains(&v.class) || reported >= 3 {
             continue;
         }
-        classes_seen.insert(v.class.clone());
+        // up to four candidates per violation class are tried until one reproduces
+        let tries = attempts.entry(v.class.clone()).or_insert(0usize);
+        if *tries >= 4 {
+            continue;
+        }
+        *tries += 1;
         // minimise, write the replay file, and make sure it reproduces in a fresh process
         let original_ops = v.case.n_ops();
         let small = shrink_in_child(p, v, seed);
@@ -770,15 +858,47 @@ pub fn check(p: &dyn Prop, tier: Tier, seed: u64) -> i32 {
         }
         if ok {
             reported += 1;
+            classes_seen.insert(v.class.clone());
             violation_lines.push(format!("VIOLATION property={} replay={}", v.property, path.display()));
             println!("violation class={} index={} : {}", v.class, v.idx, small.detail);
         } else {
-            harness.push(format!(
-                "a violation candidate (class {}, index {}) did not reproduce from its replay file {} in a fresh process",
-                v.class,
-                v.idx,
-                path.display()
-            ));
+            // the case alone does not reproduce in a fresh process: does it after the same PROCESS HISTORY
+            // (the case indices its worker ran before it, in the same order)?  Then the violation depends on
+            // state outside the simulated process (heap layout / address reuse, ...) and the replay is that history.
+            let (w, n) = (v.idx % nw as u64, nw as u64);
+            let a = history_probe(meta.id, tier, seed, w, n, v.idx);
+            let b = history_probe(meta.id, tier, seed, w, n, v.idx);
+            if a.as_deref() == Some(v.class.as_str()) && a == b {
+                let hpath = out_root().join("replays").join(format!("{}-{}-{}-history.json", v.property, v.seed, v.idx));
+                let doc = json!({
+                    "property": v.property, "class": v.class, "kind": "process_history", "seed": v.seed, "index": v.idx, "tier": tier.name(),
+                    "worker": w, "workers": n, "minimised": false, "detail": v.detail,
+                    "note": "the case alone does not reproduce in a fresh process; it reproduces (twice) when a fresh process first runs the case indices worker, worker+workers, ... before this index, as the worker that found it did: the violation depends on state that outlives a simulated process (heap layout, address reuse)",
+                    "case": v.case,
+                });
+                std::fs::write(&hpath, serde_json::to_string_pretty(&doc).unwrap()).unwrap();
+                reported += 1;
+                classes_seen.insert(v.class.clone());
+                violation_lines.push(format!("VIOLATION property={} replay={}", v.property, hpath.display()));
+                println!("violation class={} index={} (reproduces only after the same process history) : {}", v.class, v.idx, v.detail);
+            } else {
+                unreproduced.push((
+                    v.class.clone(),
+                    format!(
+                        "a violation candidate (class {}, index {}) did not reproduce from its replay file {} in a fresh process",
+                        v.class,
+                        v.idx,
+                        path.display()
+                    ),
+                ));
+            }
+        }
+    }
+    // a class none of whose candidates could be reproduced is a harness error (a class that did reproduce
+    // from another candidate is reported through that one)
+    for (class, msg) in &unreproduced {
+        if !classes_seen.contains(class) {
+            harness.push(msg.clone());
         }
     }
     // engine crashes: confirmed twice in fresh processes, then reported with an index-based replay file
